@@ -114,6 +114,9 @@ def case(spec):
             alpha = c + 'Aa' + rng.choice(META) + rng.choice(ALPHA)
             names = [('$', c), ('$', c + 'A'), ('$', 'A' + c), ('$', c + c), ('$', 'A'), ('$', 'AA'), ('$', 'B'),
                      ('$', c + 'B' + c), ('Q', c), ('Q', 'Z' + c), (c, 'DIRC'), (c, c), ('$', 'AB' + c + 'DE')]
+            twin = chr(ord(c) ^ 0x20)
+            if twin in ALPHA and not c.isalpha():
+                names += [('$', twin + 'T'), ('$', c + 'T'), ('$', 'TT' + twin)]
             names += [(rng.choice('$Q' + c), ''.join(rng.choice(alpha) for _ in range(rng.randint(1, 4))))
                       for _ in range(10)]
             names = dedupe(names)
@@ -193,6 +196,25 @@ def case(spec):
         probes = []
         for e in (rng.sample(ents, min(len(ents), 4)) if ents else []):
             probes.append((e, True))
+        def legal(ch):
+            return ch in ALPHA
+
+        def absent(d, nn):
+            if not nn or len(nn) > 7:
+                return False
+            return not any(x.dir == d and x.name.lower() == nn.lower() for x in ents)
+        for _ in range(6):
+            # near-miss names: one character of a present name with a single bit flipped
+            # (e.g. '[' vs '{', '@' vs '`', '1' vs '0'): only letters may fold case
+            if ents:
+                e = rng.choice(ents)
+                i = rng.randrange(len(e.name))
+                bit = rng.choice([5, 5, 0, 1, 2, 3, 4, 6])
+                ch = chr(ord(e.name[i]) ^ (1 << bit))
+                nn = e.name[:i] + ch + e.name[i + 1:]
+                if legal(ch) and absent(e.dir, nn):
+                    probes.append((dm.Entry(e.dir, nn, False, 0, 0, 0, 0, b''), False))
+                    res.add('near_miss_probes', 1)
         for _ in range(4):
             # absent names: a present name in a directory where it does not exist, or a mutated name
             if ents:
@@ -225,9 +247,9 @@ def case(spec):
                 sp = '%s.%s' % (e.dir, nm)
             else:
                 sp = ':%s.%s.%s' % (dv, e.dir, nm)
-            cmd = rng.choice(['type', 'list', 'dump'])
+            cmd = rng.choice(['type', 'type', 'list', 'dump'])
             args = [cmd, '--binary', sp] if cmd == 'type' else [cmd, sp]
-            if cmd == 'type' and rng.random() < 0.5:
+            if cmd == 'type' and rng.random() < 0.25:
                 args = ['type', sp]
             r_ = dfs(dfsbin, path, args, pre=pre)
             res.execs += 1
